@@ -89,3 +89,36 @@ fn mode_prepare_cleanup() { reactor_mode_prepare(1) }
 #[kani::stub(<core::any::TypeId as crate::vh::PEq>::eq, crate::vh::stub_typeid_eq)]
 #[kani::unwind(4)]
 fn mode_prepare_revokable() { reactor_mode_prepare(2) }
+
+/// C14 / C18: `ReactCommands::insert` queues the insertion and its reaction trigger iff the entity exists when the
+/// call is made (nothing at all for a dead id); the queued insertion is a `try_insert` of `React{entity, component}`.
+#[kani::proof]
+#[kani::stub(core::any::TypeId::of, crate::vh::stub_typeid_of)]
+#[kani::stub(<core::any::TypeId as crate::vh::PEq>::eq, crate::vh::stub_typeid_eq)]
+#[kani::unwind(4)]
+fn react_commands_insert_only_on_existing_entity()
+{
+    let mut world = World::new();
+    let live = world.spawn_empty().id();
+    let dead: bool = kani::any();
+    let target = if dead { Entity::m_new(live.index(), live.generation() + 1) } else { live };
+    let mut captured: Vec<bevy::world::InsertCommand<React<Ka>>> = Vec::with_capacity(2);
+    world.m_capture(&mut captured);
+    let wp = &mut world as *mut World;
+    let mut rc = ReactCommands{ commands: cmds(wp) };
+    let v: u8 = kani::any();
+    rc.insert(target, Ka(v));
+    if dead
+    {
+        assert!(world.m_queued() == 0 && captured.len() == 0, "C14/C18: inserting on an entity that does not exist triggers nothing and queues nothing");
+    }
+    else
+    {
+        assert!(world.m_queued() == 2 && captured.len() == 1, "C14: one insertion + exactly one insertion trigger");
+        assert!(captured[0].entity == live && captured[0].try_ && captured[0].bundle.entity == live && captured[0].bundle.component.0 == v,
+            "C14/C18: the component is inserted with try_insert (harmless if the entity dies meanwhile) and records its owner");
+    }
+    kani::cover!(dead, "dead id");
+    kani::cover!(!dead, "live entity");
+    std::mem::forget(captured); std::mem::forget(world);
+}
